@@ -40,6 +40,15 @@ def renameOf (attrs : List Json) : Option (List Char) :=
 def sfieldOf (f : Json) : SField :=
   { ident := (strOf f "name").toList, rename := renameOf ((arr (fieldD f "attrs" (Json.arr #[]))).toOption.getD []), ty := (strOf f "ty").toList }
 
+/-- the capture names of an axum route pattern: the texts between `{` and `}` -/
+partial def capturesOf (s : List Char) : List (List Char) :=
+  match s.dropWhile (· != '{') with
+  | [] => []
+  | _ :: r => let name := r.takeWhile (· != '}'); name :: capturesOf (r.dropWhile (· != '}'))
+
+/-- the name serde knows a member by: its `rename`, else the identifier without the raw prefix -/
+def serdeKey (f : SField) : List Char := f.rename.getD (match f.ident with | 'r' :: '#' :: r => r | i => i)
+
 def locName : Loc → String
   | .path => "path" | .query => "query" | .header => "header" | .cookie => "cookie"
 
@@ -58,10 +67,11 @@ def run : Handler := fun req => do
     let decl := pathDecl path ps
     match parsePath decl path with
     | .ok p =>
-      let ax := axumPath p
+      let ax := Oas3.Driver.Path.axumPattern decl path p
       let line := s!"{String.ofList ax} {String.ofList (routerFn method)} {String.ofList (method.map Char.toUpper)} {String.ofList path}"
-      -- oas3 0.20.1 `PathItem::methods()` pushes TRACE twice: the operation is registered twice
-      routesM := routesM ++ (if method.map Char.toUpper == "TRACE".toList then [line, line] else [line])
+      -- (oas3 0.20.1 `PathItem::methods()` yields TRACE twice; since `fix:` cdf3874 the registry keeps one operation per
+      -- (path, method): finding F05-1 / F08-6)
+      routesM := routesM ++ [line]
       shapes := shapes ++ [(shape ax, ax, String.ofList (routerFn method))]
     | .error _ => pure ()
     let rs ← Oas3.Driver.Resp.responsesOf (fieldD d "responses" (Json.arr #[]))
@@ -161,6 +171,18 @@ def run : Handler := fun req => do
         if nFields "Query" != nq then return verdict false [] s!"{method} {path}: {nFields "Query"} query fields for {nq} declared query parameters"
         if nFields "Header" != nh then return verdict false [] s!"{method} {path}: {nFields "Header"} header fields for {nh} declared header parameters"
         if nFields "Path" != decl.length then return verdict false [] s!"{method} {path}: {nFields "Path"} path fields for {decl.length} template/declared path parameters"
+        -- axum's `Path<T>` hands the captures of the matched route to serde BY NAME: every capture must be the serde name of a
+        -- member of the path struct and vice versa (a raw identifier `r#type` is `type` for serde)
+        let pathFields : List SField := match (fieldD impl "items" Json.null).getObjVal? ("struct:" ++ reqTy ++ "Path") with
+          | .ok st => ((arr (fieldD st "fields" (Json.arr #[]))).toOption.getD []).map sfieldOf
+          | .error _ => []
+        let caps := ((routesI.filterMap fun r => match r.splitOn " " with | [ax, _, dm, dp] => if dm == method && dp == path then some ax else none | _ => none).head?.map
+          fun ax => capturesOf ax.toList).getD []
+        -- (members of parameters that the template does not mention — not a valid document — are left aside)
+        let tmplFields := (capturesOf path.toList).filterMap fun n => decl.lookup n
+        let keys := (pathFields.filter fun f => tmplFields.contains f.ident).map serdeKey
+        if !pathFields.isEmpty && (!(caps.all keys.contains) || !(keys.all caps.contains)) then
+          return verdict false [] s!"{method} {path}: the route captures {caps.map String.ofList} are not the serde names {keys.map String.ofList} of the members of {reqTy}Path (the extractor fails with `missing field`)"
         -- member by member: what the handler is handed for each parameter of the MERGED set (an operation-level
         -- parameter replaces the path-item one of the same location and name)
         let wOf (o : Json) : List WParam := (Oas3.Driver.Client.wparamsOf (fieldD o "params" (Json.arr #[]))).toOption.getD []
